@@ -295,7 +295,7 @@ def _match_brace(text, open_idx):
     raise ExtractError('unbalanced braces')
 
 
-def rule_r6_body(body, counts, names=('send_message', 'send_msg_display')):
+def rule_r6_body(body, counts, names=('send_message', 'send_msg_display', 'sender\\.send')):
     """R6: append the ghost argument `Tracked(outbox)` to calls of the sending functions."""
     for name in names:
         pos = 0
@@ -361,6 +361,17 @@ def rule_r5b_body(body, counts):
     return body
 
 
+TIME_RE = re.compile(r'SystemTime::now\(\)\s*\.duration_since\(UNIX_EPOCH\)\s*\.unwrap\(\)\s*\.as_secs\(\)')
+
+
+def rule_time(body, counts):
+    """RT: the wall-clock expression becomes an opaque call (drops: panic if the clock is before the epoch)."""
+    new, n = TIME_RE.subn('verif_now_secs()', body)
+    if n:
+        counts['RT'] = counts.get('RT', 0) + n
+    return new
+
+
 RULES_BODY = {
     'R4': rule_r4_body,
     'R5': rule_r5_body,
@@ -417,6 +428,16 @@ def weave_body(body, d, fname):
             rx, k, _ = parse_anchor(argstr)
             i = find_line(lines, rx, k, fname + ' after')
             inserts_after.setdefault(i, []).extend(text)
+        elif name == 'afterloop':
+            rx, k, _ = parse_anchor(argstr)
+            i = find_line(lines, rx, k, fname + ' afterloop')
+            rest = '\n'.join(lines[i:])
+            pos = _loop_open_brace(rest)
+            if pos is None:
+                raise ExtractError('lost anchor: %s afterloop ~%s is not a loop header' % (fname, rx))
+            close = _match_brace(rest, pos)
+            j = i + rest[:close].count('\n')
+            inserts_after.setdefault(j, []).extend(text)
         elif name == 'loop':
             rx, k, opts = parse_anchor(argstr)
             i = find_line(lines, rx, k, fname + ' loop')
@@ -512,6 +533,11 @@ def emit_type(d, report):
     text, n = re.subn(r'pub\s*\(\s*(super|crate)\s*\)', 'pub', text)
     if n:
         counts['R11'] = n
+    if kind == 'struct':
+        # R11: private fields become pub (visibility is not behaviour; Verus needs it for public spec functions)
+        text, n2 = re.subn(r'^(\s+)(?!pub\b)([a-z_][A-Za-z0-9_]*\s*:)', r'\1pub \2', text, flags=re.M)
+        if n2:
+            counts['R11'] = counts.get('R11', 0) + n2
     drop = set(filter(None, (d.opt('drop', '') or '').split(',')))
     if drop:
         for f in drop:
@@ -651,6 +677,7 @@ def emit_fn(d, unit, report, canaries):
         return '\n'.join(out), None
     # --- body
     body = strip_statement_macro(body, counts)
+    body = rule_time(body, counts)
     if 'R1' in rules:
         body = rule_r1(body, counts, info)
     if 'R2' in rules:
